@@ -23,7 +23,7 @@ Global Arguments N.land : simpl never.
 Global Arguments N.lor : simpl never.
 Global Arguments N.lxor : simpl never.
 
-Definition bytes := list byte.
+Notation bytes := (list byte) (only parsing).
 
 (* ------------------------------------------------------------------ *)
 (* Outcome of a piece of Rust code: value, error return, or unwinding. *)
